@@ -495,6 +495,12 @@ def subst_value(v, mapping):
         return Slice(subst_value(v.lo, mapping), subst_value(v.hi, mapping),
                      subst_value(v.step, mapping))
     if isinstance(v, tuple):
+        if v and isinstance(v[0], str) and v in mapping:
+            return mapping[v]
+        if v and isinstance(v[0], str) and v[0] in ('attr', 'idx', 'app', 'poly', 'val'):
+            r = subst_atom(v, mapping)
+            sa = r.single_atom() if isinstance(r, Poly) else None
+            return sa if sa is not None else ('val', r)
         return tuple(subst_value(x, mapping) for x in v)
     return v
 
